@@ -1,7 +1,7 @@
 (* C13: protocol 4 pickles (FRAME, SHORT_BINUNICODE, MEMOIZE) decode to the datapoints as well, and a connection
    may mix frames of protocols 2, 3 and 4. *)
 From CRNG Require Import Base.ListX Base.Bytes Base.Decimal Model.PickleVM Model.Reencode Model.PickleIn Model.PyPickle
-  Proofs.ReencodeProofs Proofs.PickleInProofs.
+  Proofs.ReencodeProofs Proofs.PickleInProofs Proofs.PickleIn1.
 From Coq Require Import ZifyN ZifyNat ZifyBool.
 Ltac Zify.zify_post_hook ::= Z.div_mod_to_equations.
 Local Open Scope N_scope.
@@ -171,9 +171,6 @@ Section Conn4.
   Variable pf : bytes -> option N.
   Variable fmt6 fmt0 : N -> bytes.
 
-  Definition payload (pd : N * list pydp) : bytes :=
-    if fst pd =? 4 then py_dumps4 (snd pd) else py_dumps (fst pd) (snd pd).
-
   Definition frame_ok4 (pd : N * list pydp) : Prop :=
     forallb dp_ok (snd pd) = true /\ 3 * N.of_nat (length (snd pd)) + 1 < 4294967296 /\
     N.of_nat (length (payload pd)) <= max_payload.
@@ -182,14 +179,14 @@ Section Conn4.
   Proof.
     unfold payload. destruct (fst pd =? 4).
     - unfold py_dumps4. cbv zeta. destruct (N.of_nat (length (body4 (snd pd))) <? 4); reflexivity.
-    - reflexivity.
+    - destruct (fst pd =? 1); reflexivity.
   Qed.
 
   Lemma unpickle_payload pd : frame_ok4 pd -> unpickle pf false (payload pd) = RDone (VList (map item_val (snd pd))).
   Proof.
     intros [Hok [Hn _]]. unfold payload. destruct (fst pd =? 4).
     - apply unpickle_py_dumps4. exact Hok.
-    - apply unpickle_py_dumps; assumption.
+    - destruct (fst pd =? 1); [apply unpickle_py_dumps1 | apply unpickle_py_dumps]; assumption.
   Qed.
 
   Lemma handle_frame4 f pd rest :
